@@ -1,4 +1,5 @@
 import SwayVerif.Lemmas.LspSched
+import SwayVerif.Model.LspSchedTree
 /-!
 # C24 — LSP compilation scheduling neither hangs nor drops edits
 
@@ -52,6 +53,13 @@ theorem C24_latest_compiled_cfg {c : Cfg} {s : State} (hc : c.clearAtRecv = true
 theorem C24_latest_compiled {s : State} (hr : Reachable Cfg.fixed s) (q : Quiescent s) :
     s.lastDone = s.latest :=
   C24_latest_compiled_cfg rfl hr q
+
+/-- The code in `/repo`'s working tree (shape extracted by `gen/lsp_sched_shape.py` on every run) is
+the repaired protocol, so `C24_no_stuck_waiter` and `C24_latest_compiled` are about it. Fails to
+compile when the order of the shared accesses in the worker loop, `wait_for_parsing`,
+`send_new_compilation_request` or the handlers changes, or when a new mention of the protocol's
+fields appears in `sway-lsp/src`. -/
+theorem C24_tree_is_fixed : treeCfg = some Cfg.fixed := by decide
 
 /-! ## The code before the repair violated both halves (explicit, realisable schedules)
 
